@@ -1,113 +1,8 @@
-// Kani contracts + harnesses for the integer-literal decoders of src/pest_bridge.rs (unit U2, C07).
-// This file is include!d into `#[cfg(kani)] mod verif_kani` inside src/pest_bridge.rs, so `super::*`
-// gives access to the private functions.  The spec functions below are written from RFC 8610
-// Appendix B (uint = DIGIT1 *DIGIT / "0x" 1*HEXDIG / "0b" 1*BINDIG / "0"; int = ["-"] uint),
-// digit by digit, with u128 accumulation -- they share no code with the implementation
-// (which delegates to core's from_str_radix / str::parse).
-
-pub fn digit_val(d: u8, radix: u32) -> Option<u128> {
-  let v = match d {
-    b'0'..=b'9' => (d - b'0') as u32,
-    b'a'..=b'f' => (d - b'a') as u32 + 10,
-    b'A'..=b'F' => (d - b'A') as u32 + 10,
-    _ => return None,
-  };
-  if v < radix {
-    Some(v as u128)
-  } else {
-    None
-  }
-}
-
-/// (radix, index of first digit) of a uint literal spelling.
-pub fn split_radix(b: &[u8]) -> (u32, usize) {
-  if b.len() >= 2 && b[0] == b'0' && (b[1] == b'x' || b[1] == b'X') {
-    (16, 2)
-  } else if b.len() >= 2 && b[0] == b'0' && (b[1] == b'b' || b[1] == b'B') {
-    (2, 2)
-  } else {
-    (10, 0)
-  }
-}
-
-/// The grammar's `uint_value` shape (cddl.pest / RFC 8610 Appendix B).
-pub fn grammar_uint(s: &str) -> bool {
-  let b = s.as_bytes();
-  let (radix, start) = split_radix(b);
-  if b.len() <= start {
-    return false;
-  }
-  if radix == 10 && b[0] == b'0' && b.len() > 1 {
-    return false; // no leading zeros in the decimal form
-  }
-  let mut i = start;
-  while i < b.len() {
-    if digit_val(b[i], radix).is_none() {
-      return false;
-    }
-    i += 1;
-  }
-  true
-}
-
-pub fn grammar_int(s: &str) -> bool {
-  let b = s.as_bytes();
-  if !b.is_empty() && b[0] == b'-' {
-    grammar_uint(&s[1..])
-  } else {
-    grammar_uint(s)
-  }
-}
-
-/// Value RFC 8610 assigns to a uint literal, None when it does not fit 64 bits.
-pub fn spec_uint(s: &str) -> Option<u64> {
-  let b = s.as_bytes();
-  let (radix, start) = split_radix(b);
-  if b.len() <= start {
-    return None;
-  }
-  let mut acc: u128 = 0;
-  let mut i = start;
-  while i < b.len() {
-    let v = match digit_val(b[i], radix) {
-      Some(v) => v,
-      None => return None,
-    };
-    acc = acc * (radix as u128) + v;
-    if acc > u64::MAX as u128 {
-      return None; // never wrapped, never truncated
-    }
-    i += 1;
-  }
-  Some(acc as u64)
-}
-
-pub fn spec_usize(s: &str) -> Option<usize> {
-  match spec_uint(s) {
-    Some(v) if (v as u128) <= usize::MAX as u128 => Some(v as usize),
-    _ => None,
-  }
-}
-
-pub fn spec_int(s: &str) -> Option<isize> {
-  let b = s.as_bytes();
-  if !b.is_empty() && b[0] == b'-' {
-    let m = spec_uint(&s[1..])? as i128;
-    let v = -m;
-    if v >= isize::MIN as i128 {
-      Some(v as isize)
-    } else {
-      None
-    }
-  } else {
-    let m = spec_uint(s)? as i128;
-    if m <= isize::MAX as i128 {
-      Some(m as isize)
-    } else {
-      None
-    }
-  }
-}
+// Kani harnesses for the integer-literal decoders of src/pest_bridge.rs (unit U2, C07).
+// include!d into `#[cfg(kani)] mod verif_kani` inside src/pest_bridge.rs (guarded hook), so
+// `super::*` gives access to the private functions.  The contracts themselves are attributes on
+// the real functions; they refer to the spec functions of pest_bridge_spec.rs.
+include!(concat!(env!("ANWEISS_CDDL_VERIF_DIR"), "/kani/pest_bridge_spec.rs"));
 
 /// Symbolic ASCII text of at most N bytes.
 fn any_ascii<const N: usize>(buf: &mut [u8; N]) -> &str {
@@ -125,6 +20,15 @@ fn any_ascii<const N: usize>(buf: &mut [u8; N]) -> &str {
 }
 
 // ---- parse_u64_lit: one proof per radix (bounded in spelling length, complete in value) --------
+
+#[kani::proof_for_contract(parse_u64_lit)]
+#[kani::unwind(23)]
+fn u64_decimal_20() {
+  let mut buf = [0u8; 20]; // as many digits as u64::MAX has: every in-range value, and overflow
+  let s = any_ascii(&mut buf);
+  kani::assume(split_radix(s.as_bytes()).0 == 10);
+  parse_u64_lit(s);
+}
 
 #[kani::proof_for_contract(parse_u64_lit)]
 #[kani::unwind(24)]
@@ -145,6 +49,16 @@ fn u64_hex() {
   kani::assume(split_radix(s.as_bytes()).0 == 16);
   kani::cover!(grammar_uint(s) && s.len() == 19 && spec_uint(s).is_none(), "17-hex-digit overflow reachable");
   kani::cover!(grammar_uint(s) && s.len() == 18 && spec_uint(s) == Some(u64::MAX), "u64::MAX reachable");
+  parse_u64_lit(s);
+}
+
+#[kani::proof_for_contract(parse_u64_lit)]
+#[kani::unwind(37)]
+fn u64_bin_34() {
+  let mut buf = [0u8; 34]; // "0b" + 32 digits (short stand-in for the quick tier)
+  let s = any_ascii(&mut buf);
+  kani::assume(split_radix(s.as_bytes()).0 == 2);
+  kani::cover!(grammar_uint(s) && s.len() == 34 && spec_uint(s).is_some(), "32-bit literal reachable");
   parse_u64_lit(s);
 }
 
